@@ -18,7 +18,7 @@ type tplGen struct {
 	noFrag  bool // never emit insert/replace (used inside fragment bodies to keep the call graph acyclic)
 }
 
-var hostileStrings = []string{"str", "<b>", "q\"'&", "a\\b", "l1\nl2", "tab\there", "${x}", "}", "-->", "</script>", "é✓", "\x01", "a&amp;b", "' onx='", " "}
+var hostileStrings = []string{"str", "<b>", "q\"'&", "a\\b", "l1\nl2", "tab\there", "${x}", "}", "-->", "</script>", "é✓", "\x01", "a&amp;b", "' onx='", " ", ""}
 
 func (g *tplGen) count(k string) { g.stats[k]++ }
 
